@@ -432,7 +432,7 @@ func runC10(sc C10Sc, c *kit.Case) *kit.Violation {
 
 func init() {
 	kit.Register("C10a",
-		"rapid: histories over a harness-controlled token clock (VerifSetTokenClock): token issue by genuine get/get_peers from a pool of 1..3 IPs (udp4 or dual-stack representation), clock advances drawn on and around the 5-minute rotation grid (+-1 ns at 5/10/15 min), announce_peer/put presenting the exact token or a bit-flipped / byte-changed / truncated / extended / empty / absent / other-server token from the same or another IP and any port. Oracle: exact + same IP + age <= 10 min => one response and the write takes effect (announce callback, AddPeer, store Put); other token, other IP or age > 15 min => no datagram and no effect; in between either, consistently. Non-trivial: an accepted and a rejected write for one IP, or a use within 1 ns of a window bound.",
+		"rapid: histories over a harness-controlled token clock (VerifSetTokenClock): token issue by genuine get/get_peers from a pool of 1..3 IPs (udp4 or dual-stack representation), clock advances drawn on and around the 5-minute rotation grid (+-1 ns at 5/10/15 min) and jumps of 2^8 / 2^16 / 2^17 / 2^24 rotation intervals, chains of uses a few minutes apart, source IPs one bit or byte apart or embedding the same four bytes in the other address family, writes that are defective in a second way (no seq / no v / oversized / bad signature / no info_hash / no port), announce_peer/put presenting the exact token or a bit-flipped / byte-changed / truncated / extended / empty / absent / other-server token from the same or another IP and any port. Oracle: exact + same IP + age <= 10 min => one response and the write takes effect (announce callback, AddPeer, store Put); other token, other IP or age > 15 min => no datagram and no effect; in between either, consistently. Non-trivial: an accepted and a rejected write for one IP, or a use within 1 ns of a window bound.",
 		[]string{"tokens are compared per presented string: if the presented string equals any token the node issued to that IP within the window, acceptance is legitimate"},
 		genC10, runC10)
 }
